@@ -439,9 +439,47 @@ def _one(item):
     return src, shape, bad, nruns
 
 
+# ---- a destroyed object that is still reachable (its destructor stored 'this'): whatever the interpreter does with an operation
+# through such a reference - refuse it, or perform it on a qubit of its own - it must never land on the qubit of a live declaration
+ESC_CLASSES = """class E { public qubit q; public int id; public constructor(int i) -> E { this.id = i; } public destructor() -> void { Keep.saved = this; } }
+static class Keep { public static E saved = null; }
+"""
+
+
+def escape_programs():
+    die = {"destroy": "E c = new E(1); destroy c;", "null": "E c = new E(1); c = null;", "scope": "{ E c = new E(1); }", "overwrite": "E c = new E(1); c = new E(5); E c5 = c;"}
+    fresh = {"object": ("E d = new E(2);", ["d.q"]), "scalar": ("qubit d;", ["d"]), "register": ("qubit[2] d;", ["d[0]", "d[1]"]), "two-objects": ("E d = new E(2); E e = new E(3);", ["d.q", "e.q"])}
+    stale = {"x-via-local": "E k = Keep.saved; x(k.q);", "x-direct": "x(Keep.saved.q);", "h-then-measure": "E k = Keep.saved; x(k.q); measure k.q;", "reset-then-x": "E k = Keep.saved; reset k.q; x(k.q);"}
+    cls = ESC_CLASSES
+    for (dn, dsrc), (fn, (fsrc, handles)), (sn, ssrc) in itertools.product(die.items(), fresh.items(), stale.items()):
+        probes = " ".join("echo(measure %s);" % hnd for hnd in handles)
+        yield ("escape:%s:%s:%s" % (dn, fn, sn), cls + "function main() -> void { qubit pad; %s %s %s %s }\n" % (dsrc, fsrc, ssrc, probes), len(handles))
+
+
+def _escape_one(item):
+    name, src, nlive = item
+    r = vdrv.run_src(src, gc="own", warn=0, want="ops")
+    if r.crash or r.rec is None:
+        return name, src, "interpreter died: %s %s" % (r.crash, r["fd2"][:300])
+    st = r.rec.get("status")
+    if st == "runtime":
+        return name, src, None                 # the stale reference was refused
+    if st != "ok":
+        return name, src, "unexpected status %s: %s" % (st, r.rec.get("msg"))
+    lines = [l for l in r.rec.get("stdout", "").split("\n") if l]
+    if lines != ["0"] * nlive:
+        return name, src, "freshly declared qubits that no gate was applied to read %s instead of all 0: an operation through the reference kept by a destroyed object landed on a live declaration's qubit (operations performed: %s)" % (lines, r.rec.get("ops"))
+    return name, src, None
+
+
 def main(tier):
     global _GEN
     ck = vcheck.Check("C03", "model_checking", tier)
+    nesc = 0
+    for name, src, prob in vdrv.pmap(_escape_one, list(escape_programs()), chunksize=4):
+        nesc += 1
+        if prob:
+            ck.violation("escape:" + name.split(":")[3] + ":" + prob.split(" ")[0], "%s\ncase %s\nprogram:\n%s" % (prob, name, src), {"tool": "vdrv", "job": {"kind": "run", "opts": {"gc": "own", "warn": 0, "want": "ops"}, "blobs": {"src": src}}})
     runs = ([["bfs", "full", 3, 10], ["bfs", "full", 4, 9]] + simlevel.HISTORY_RUNS_THOROUGH) if tier == "thorough" else ([["bfs", "full", 3, 8]] + simlevel.HISTORY_RUNS_QUICK)
     res = simlevel.run_all(runs)
     simlevel.report(ck, res, {"C03"})
@@ -477,6 +515,6 @@ def main(tier):
         "states": sum(d.get("states", 0) for d in res) + len(shapes),
         "transitions": sum(d.get("transitions", 0) for d in res) + nruns,
         "traces_validated_against_impl": sum(d.get("transitions", 0) for d in res) + nruns,
-        "handle_programs": nprog, "handle_programs_total": len(items), "handle_runs": nruns, "handle_shapes": len(shapes), "handle_L": L,
+        "escape_programs": nesc, "handle_programs": nprog, "handle_programs_total": len(items), "handle_runs": nruns, "handle_shapes": len(shapes), "handle_L": L,
         "runs": [{k: d.get(k) for k in ("args", "states", "transitions", "allocs", "capped", "max_norm_dev")} for d in res],
     }, exhaustive=not any(d.get("capped") for d in res))
